@@ -30,7 +30,8 @@ func (dec *Decoder) checkUTF8String(buf []byte, off, utf16Length int) (int, int,
 	case 14:
 		off += 3
 	case 15:
-		if b&8 == 8 {
+		// a 4-byte sequence is a surrogate pair: it takes two of the remaining UTF-16 units
+		if b&8 == 8 || utf16Length < 2 {
 			if dec.Error == nil {
 				dec.Error = ErrInvalidUTF8
 			}
